@@ -76,6 +76,8 @@ impl LogicalLineFileFormatter for OptimisingLineFormatter {
             .filter(|(_, line)| line.get_parent().is_none() && line.get_line_type() != LLT::Eof)
         {
             if let Some(solution) = olf.format_line(line) {
+                #[cfg(pasfmt_verif)]
+                crate::verif::solution(0, line.0, || verif_solution_string(&solution));
                 olf.reconstruct_solution(&solution, line.1);
             }
         }
@@ -137,6 +139,8 @@ impl LogicalLineFileFormatter for OptimisingLineFormatter {
 
         for line in lines_to_reflow {
             if let Some(solution) = olf.format_line(line) {
+                #[cfg(pasfmt_verif)]
+                crate::verif::solution(1, line.0, || verif_solution_string(&solution));
                 olf.reconstruct_solution(&solution, line.1);
             }
         }
@@ -158,6 +162,37 @@ impl LogicalLineFileFormatter for OptimisingLineFormatter {
         }
     }
 }
+/// `ind.cont[d;d;…]` with `d` = `B<continuations>` or `C`, followed by `(<child line>=<solution>,…)` when
+/// the token has child lines
+#[cfg(pasfmt_verif)]
+fn verif_solution_string(solution: &FormattingSolution) -> String {
+    let decisions: Vec<String> = solution
+        .decisions
+        .iter()
+        .map(|d| {
+            let mut s = match d.decision {
+                Decision::Break { continuations } => format!("B{continuations}"),
+                Decision::Continue => "C".to_string(),
+            };
+            if !d.child_solutions.is_empty() {
+                let children: Vec<String> = d
+                    .child_solutions
+                    .iter()
+                    .map(|(line, child)| format!("{line}={}", verif_solution_string(child)))
+                    .collect();
+                s.push_str(&format!("({})", children.join(",")));
+            }
+            s
+        })
+        .collect();
+    format!(
+        "{}.{}[{}]",
+        solution.starting_ws.indentations,
+        solution.starting_ws.continuations,
+        decisions.join(";")
+    )
+}
+
 impl OptimisingLineFormatter {
     pub fn new(
         olf_settings: OptimisingLineFormatterSettings,
